@@ -130,6 +130,8 @@ type Spec struct {
 	PrepareOnly bool
 	// AfterPrepare, if set, is called on the main client goroutine with the prepared workflow.
 	AfterPrepare func(wf workflow.ExecutableWorkflow)
+	// Watch is passed to the scheduler (see simrt.Sim.Watch).
+	Watch func(site string) bool
 	// RealTimeout aborts the process (exit 2) when one run takes longer in real time.
 	RealTimeout time.Duration
 }
@@ -158,6 +160,7 @@ type Result struct {
 	Stuck       []string                    `json:"stuck,omitempty"` // parked goroutines when the run was called stuck
 	LiveAtEnd   []string                    `json:"live_at_end,omitempty"`
 	Journal     []simrt.Decision            `json:"journal,omitempty"`
+	Snapshots   []simrt.Snapshot            `json:"snapshots,omitempty"`
 	Stats       simrt.Stats                 `json:"stats"`
 	Fired       map[string]int              `json:"fired,omitempty"`
 	BugLogs     []string                    `json:"bug_logs,omitempty"`
@@ -219,6 +222,7 @@ func Run(t *testing.T, sp Spec) (res *Result) {
 		}
 		s = simrt.Start(pol, sp.MapMode, sp.MapSeed)
 		s.RecordJournal = sp.Journal
+		s.Watch = sp.Watch
 		defer s.Detach()
 		leave := simrt.Enter("env/sched")
 		defer leave()
@@ -315,7 +319,7 @@ func Run(t *testing.T, sp Spec) (res *Result) {
 									r.OpenAtReturn = append(r.OpenAtReturn, d.N)
 								}
 							}
-							r.OutputID, r.OutputData = id, data
+							r.OutputID, r.OutputData = id, Canon(data)
 							if err != nil {
 								r.Err, r.ErrClass = err.Error(), ErrClass(err)
 							}
@@ -342,6 +346,7 @@ func Run(t *testing.T, sp Spec) (res *Result) {
 		res.Panics = append(res.Panics, s.Panics...)
 		res.Harness = s.HarnessErrors()
 		res.Journal = s.Journal
+		res.Snapshots = s.Snapshots
 		res.Events = w.Events()
 		res.Fired = w.FiredCounts()
 		res.BugLogs = w.BugLogs
